@@ -90,8 +90,114 @@ pub fn check_consistent(b: &Board, what: &str) -> Result<(), Failure> {
 
 pub fn gen_pos_case(cur: &mut Cursor) -> Value {
     let (p, src) = gen_position(cur);
-    json!({"fen": p.fen(), "src": src})
+    with_twin(cur, json!({"fen": p.fen(), "src": src}))
 }
+
+/// Adds the twin selector (see `twin_of`) to a case that carries a "fen".
+pub fn with_twin(cur: &mut Cursor, mut case: Value) -> Value {
+    let sel = (cur.u16() as u32) << 16 | cur.u16() as u32;
+    case["twin"] = json!(sel);
+    let age = (cur.u16() as u32) << 16 | cur.u16() as u32;
+    case["age"] = json!(age);
+    case
+}
+
+/// Gives a freshly built board object a history (selector from the genome; three out of four give none): one to three
+/// pseudo-legal moves of the reference model (special moves and captures preferred), or the null move, are made and taken
+/// back in place - through make_move_unchecked/unmake_move_unchecked, through Move::make_raw (which takes an illegal move
+/// back by itself), or nested with a reply. The position is the same; every property quantified over valid positions
+/// must hold for this object as for a fresh one. Returns the number of moves made and undone.
+pub fn age_board(b: &mut Board, r: &RefPos, sel: u32) -> usize {
+    use owlchess::moves::{make_move_unchecked, unmake_move_unchecked, Make};
+    if sel & 3 != 2 {
+        return 0;
+    }
+    let bytes = [crate::gen::splitmix(sel as u64 ^ 0x61_6765).to_le_bytes(), crate::gen::splitmix(sel as u64 ^ 0x6167_6532).to_le_bytes()].concat();
+    let mut cur = Cursor::new(&bytes);
+    let ps = r.pseudo_legal();
+    let specials: Vec<RefMove> = ps.iter().filter(|m| !matches!(m.kind, Kind::Simple) || r.is_capture(m)).cloned().collect();
+    let n = 1 + cur.below(3);
+    let mut done = 0;
+    for _ in 0..n {
+        let mode = cur.below(4);
+        if mode == 3 {
+            if !r.in_check(r.side) {
+                let u = unsafe { make_move_unchecked(b, Move::NULL) };
+                unsafe { unmake_move_unchecked(b, Move::NULL, u) };
+                done += 1;
+            }
+            continue;
+        }
+        if ps.is_empty() {
+            continue;
+        }
+        let m = if !specials.is_empty() && cur.bool() { specials[cur.below(specials.len())] } else { ps[cur.below(ps.len())] };
+        let lm = match mv_to_lib(&m) {
+            Ok(x) => x,
+            Err(_) => continue,
+        };
+        match mode {
+            0 => {
+                let u = unsafe { make_move_unchecked(b, lm) };
+                unsafe { unmake_move_unchecked(b, lm, u) };
+            }
+            1 => {
+                if let Ok((m2, u)) = lm.make_raw(b) {
+                    unsafe { unmake_move_unchecked(b, m2, u) };
+                }
+            }
+            _ => {
+                let r2 = r.apply(&m);
+                let legal = !r2.in_check(r.side);
+                let u = unsafe { make_move_unchecked(b, lm) };
+                if legal {
+                    let ps2 = r2.pseudo_legal();
+                    if !ps2.is_empty() {
+                        if let Ok(lm2) = mv_to_lib(&ps2[cur.below(ps2.len())]) {
+                            let u2 = unsafe { make_move_unchecked(b, lm2) };
+                            unsafe { unmake_move_unchecked(b, lm2, u2) };
+                        }
+                    }
+                }
+                unsafe { unmake_move_unchecked(b, lm, u) };
+            }
+        }
+        done += 1;
+    }
+    done
+}
+
+/// Runs the library's queries on the twin of a case without judging the answers: whatever the library remembers from
+/// one call to the next is then about a position that differs from the case in a single feature.
+pub fn warm_up(t: &RefPos) {
+    use owlchess::movegen::{cell_attackers, is_cell_attacked, legal, semilegal};
+    let raw = raw_from_ref(t);
+    let _ = Board::try_from(&raw);
+    let b = match Board::try_from(raw) {
+        Ok(b) => b,
+        Err(_) => return,
+    };
+    let _ = Board::try_from(b.raw());
+    let l = legal::gen_all(&b);
+    let _ = (semilegal::gen_all(&b).len(), b.has_legal_moves(), b.is_check(), b.checkers(), b.calc_outcome(), b.as_fen(), b.zobrist_hash());
+    for m in l.iter() {
+        let _ = m.validate(&b);
+        if let Ok(s) = m.san(&b) {
+            let text = s.to_string();
+            let _ = Move::from_san(&text, &b);
+        }
+        let _ = Move::from_uci_legal(&m.to_string(), &b);
+        if let Ok(nb) = b.make_move(*m) {
+            let _ = (nb.is_check(), nb.has_legal_moves());
+        }
+    }
+    for s in 0..64u8 {
+        for c in [owlchess::Color::White, owlchess::Color::Black] {
+            let _ = (is_cell_attacked(&b, sq_to_lib(s), c), cell_attackers(&b, sq_to_lib(s), c));
+        }
+    }
+}
+
 
 /// Decodes the position of a case through the reference FEN reader (not the library's parser).
 /// Returns None (and counts a skip) if the library's gate refuses a reference-valid position.
@@ -102,6 +208,10 @@ pub fn case_board(case: &Value, stats: &mut Stats) -> Result<Option<(Board, RefP
         stats.skip("case_not_reference_valid");
         return Ok(None);
     }
+    if let Some(t) = case.get("twin").and_then(|t| t.as_u64()).and_then(|sel| crate::gen::positions::twin_of(&p, sel as u32)) {
+        warm_up(&t);
+        stats.label("twin_evaluated_first");
+    }
     let raw = raw_from_ref(&p);
     match Board::try_from(raw) {
         Ok(b) => {
@@ -111,6 +221,12 @@ pub fn case_board(case: &Value, stats: &mut Stats) -> Result<Option<(Board, RefP
             }
             if let Some(src) = case.get("src").and_then(|s| s.as_str()) {
                 stats.label(&format!("src:{}", src));
+            }
+            let mut b = b;
+            if let Some(sel) = case.get("age").and_then(|t| t.as_u64()) {
+                if age_board(&mut b, &p, sel as u32) > 0 {
+                    stats.label("board_object_with_history");
+                }
             }
             Ok(Some((b, p)))
         }
@@ -197,7 +313,7 @@ pub fn gen_walk_case(cur: &mut Cursor) -> Value {
     let (p, src) = gen_position(cur);
     let n = 8 + cur.below(120);
     let path: Vec<u8> = (0..n).map(|_| cur.u8()).collect();
-    json!({"fen": p.fen(), "src": src, "path": path})
+    with_twin(cur, json!({"fen": p.fen(), "src": src, "path": path}))
 }
 
 pub struct WalkReport {
